@@ -407,18 +407,41 @@ void MemoryLeakDetectorTable::clearAllAccounting(MemLeakPeriod period)
         table_[i].clearAllAccounting(period);
 }
 
+#ifdef CPPUTEST_VERIF_HOOKS
+/* conformance harness: called after each table operation (1 = add, 2 = remove, 3 = retrieve), i.e. after
+ * the state change and still inside whatever lock the caller holds; default off */
+void (*CppUTestVerif_TableEvent)(int kind, const void* memory, int found) = NULLPTR;
+#endif
+
 void MemoryLeakDetectorTable::addNewNode(MemoryLeakDetectorNode* node)
 {
     table_[hash(node->memory_)].addNewNode(node);
+#ifdef CPPUTEST_VERIF_HOOKS
+    if (CppUTestVerif_TableEvent) CppUTestVerif_TableEvent(1, node->memory_, 1);
+#endif
 }
 
 MemoryLeakDetectorNode* MemoryLeakDetectorTable::removeNode(char* memory)
 {
+#ifdef CPPUTEST_VERIF_HOOKS
+    if (CppUTestVerif_TableEvent) {
+        MemoryLeakDetectorNode* removed = table_[hash(memory)].removeNode(memory);
+        CppUTestVerif_TableEvent(2, memory, removed != NULLPTR);
+        return removed;
+    }
+#endif
     return table_[hash(memory)].removeNode(memory);
 }
 
 MemoryLeakDetectorNode* MemoryLeakDetectorTable::retrieveNode(char* memory)
 {
+#ifdef CPPUTEST_VERIF_HOOKS
+  if (CppUTestVerif_TableEvent) {
+      MemoryLeakDetectorNode* found = table_[hash(memory)].retrieveNode(memory);
+      CppUTestVerif_TableEvent(3, memory, found != NULLPTR);
+      return found;
+  }
+#endif
   return table_[hash(memory)].retrieveNode(memory);
 }
 
